@@ -175,6 +175,33 @@ func TestC19(t *testing.T) {
 				A = ReplicaSpec{Shards: []ShardSpec{a0, a1}}
 			}
 		}
+		slowBeforeIdleTail := false
+		if mode == "differential" && !slowA && !manyStaleA && !bothOverloaded && rapid.IntRange(0, 39).Draw(t, "slowBeforeIdleTail") == 17 {
+			// replica B has a tail shard whose idle time is just over when it is asked; replica A answers correctly but
+			// takes its time.  Whether B's tail shard goes is B's business alone
+			slowBeforeIdleTail = true
+			opt.IdleOn, opt.IdleMS, opt.PeriodMS, opt.Min, opt.MaxHead = true, 0, 0, 1, 0
+			if opt.Max < 4 {
+				opt.Max = 4
+			}
+			if opt.MaxProc < 100 {
+				opt.MaxProc = 1000
+			}
+			targets = []TargetSpec{{Hash: 1, Job: "j0", Explore: "good", Series: 10, Total: 10}}
+			ok := ShardSpec{Ready: true, StatusOK: true, Runtime1OK: true, HashEqual: true, Push: "ok", Runtime2OK: true, Idle: "fresh"}
+			b0, b1 := ok, ok
+			b0.Held = []Held{{Hash: 1, Health: "up", Times: 5, Series: 10, Total: 10}}
+			b1.Idle = "justExpired"
+			B = ReplicaSpec{Shards: []ShardSpec{b0, b1}}
+			a0 := b0
+			a0.DelayMS = rapid.SampledFrom([]int{0, 40, 40}).Draw(t, "aDelay")
+			A = ReplicaSpec{Shards: []ShardSpec{a0}}
+			if rapid.Bool().Draw(t, "aTwoShards") {
+				a1 := ok
+				a1.DelayMS = a0.DelayMS
+				A.Shards = append(A.Shards, a1)
+			}
+		}
 		seed := int64(rapid.IntRange(1, 1<<30).Draw(t, "randSeed"))
 		mk := func(reps ...ReplicaSpec) *Scenario {
 			sc := &Scenario{Opt: opt, Targets: targets, Replicas: reps, RandSeed: seed}
@@ -223,6 +250,10 @@ func TestC19(t *testing.T) {
 		}
 		if manyStaleA {
 			cls = append(cls, "A-has-30-to-40-shards-with-an-old-configuration")
+		}
+		if slowBeforeIdleTail {
+			nt = true
+			cls = append(cls, fmt.Sprintf("idle-time-of-B's-tail-shard-just-over/A-answers-after-%dms", A.Shards[0].DelayMS))
 		}
 		if slowA && len(A.Shards) > 0 && !allUnready && !A.ListFail {
 			nt = true
